@@ -11,11 +11,11 @@ EXPLANATION = ("Decides the premises from which the property follows for every s
                "write_all of the whole buffer) in every emitting body of the file and std writers, the thread-local buffer empty again at exit, the "
                "recursion arm using a fresh buffer; the state is only reachable through its Mutex guard (type system + R03.1); R03.3 one send per "
                "record, the receiver moved into exactly one spawned closure and never cloned, each data message written by one call; R03.4 pooled "
-               "buffers are cleared immediately before being pushed to the pool; R03.5 inventory of global mutable state.")
+               "buffers are cleared immediately before being pushed to the pool; R03.5 inventory of global mutable state; R03.6 in the buffered stdout/stderr mode every record is written into the one BufWriter reached through its Mutex guard (a second handle to the stream or a print macro would let a record overtake the thread's buffered ones).")
 ASSUMPTIONS = ["Mutex/RwLock give mutual exclusion, Stderr/Stdout::write_all holds the stream lock for the whole call (std)",
                "crossbeam unbounded channels are FIFO per sender", "write(2) on the same file description is not interleaved by the OS within one write_all of a BufWriter flush (not decided)"]
 NOT_DECIDED = ["atomicity of write(2)", "fairness", "interleaving of different sinks (file vs duplicate)"]
-FLOORS = {'R03.1': 2, 'R03.2': 3, 'R03.5': 3}
+FLOORS = {'R03.6': 1, 'R03.1': 2, 'R03.2': 3, 'R03.5': 3}
 
 ALLOWED_STATICS = {
     'util::error_channel::ERROR_CHANNEL': 'error channel, OnceLock<RwLock<..>>',
@@ -34,6 +34,8 @@ def run(R, ctx):
     R.rule('R03.3', 'async hand-over: one send, one consumer, one write per message')
     R.rule('R03.4', 'DOM(clear, pool push)')
     R.rule('R03.5', 'WHO: inventory of global mutable state')
+    R.rule('R03.6', 'buffered std stream: every record goes through the one BufWriter, under its mutex')
+    buffered_std_sink(R, ctx)
 
     forbid = any(a['path'].strip() == 'forbid' and 'unsafe_code' in a['idents'] for a in f.crate_attrs)
     R.check('R03.1', 'forbid(unsafe_code)', forbid, "#![forbid(unsafe_code)] at the crate root",
@@ -96,6 +98,38 @@ def run(R, ctx):
         seen_st.add(s['path'])
         R.check('R03.5', f"static:{s['path']}", s['path'] in ALLOWED_STATICS, ALLOWED_STATICS.get(s['path'], ''),
                 f"new global state `{s['path']}: {s['ty']}` is not in the inventory of shared state whose synchronisation was reviewed", where=f"{s['span']['file']}:{s['span']['line']}")
+
+
+def buffered_std_sink(R, ctx):
+    """In the buffered stdout/stderr mode the records of all threads are serialised by the Mutex around the one BufWriter, and a
+    thread's records keep their order because they all pass through that buffer.  A record emitted in this mode through anything
+    else (a second handle to the stream, a print macro) overtakes the thread's earlier, still buffered records."""
+    f = ctx.f
+    b = ctx.body(r'^<primary_writer::std_writer::StdWriter as writers::log_writer::LogWriter>::write$')
+    WB = r'util::write_buffered$'
+    LOCK = r'^std::sync::Mutex::<T>::(lock|try_lock)$'
+    I = FDI(f, effects=[WB, LOCK, r'StdStream::lock$', r'^std::io::_e?print$', r'::write_all$'], no_inline=[WB, r'util::eprint_err$', r'pop_buffer$'], max_steps=20000)
+    rows = I.run(b.path, arg_names=['self', 'now', 'record'])
+    bad = None
+    n = 0
+    for r in rows:
+        if r.undecided:
+            raise CheckError(f"R03.6 {b.path}: UNDECIDED {r.undecided}")
+        if r.get('variant(self.writer)') != 'Buffered':
+            continue
+        for e in r.effects:
+            nm = e[0].split('::')[-1]
+            if re.search(WB, e[0]):
+                wx = eff_arg_x(f, e, 'w', r'dyn std::io::Write')
+                if not T.eff_indices(wx, LOCK) or 'writer' not in T.fields_in(wx):
+                    bad = f"a record is written to {r.long(eff_arg(f, e, 'w', r'dyn std::io::Write'))[:100]}, not to the BufWriter behind the mode's mutex"
+                n += 1
+            elif nm in ('_print', '_eprint', 'write_all'):
+                bad = f"a record is emitted with {nm} in the buffered mode, past the BufWriter"
+    if not bad and n < 1:
+        raise CheckError(f"R03.6: no buffered emission found in {b.path}")
+    R.check('R03.6', f"{b.path}|buffered-sink", not bad, f"{n} buffered emissions, all into the guarded BufWriter",
+            f"buffered stdout/stderr mode: {bad}: the record overtakes the thread's earlier records that are still in the buffer (per-thread order is lost)", where=b.loc())
 
 
 def async_rules(R, ctx):
